@@ -219,6 +219,12 @@ pub use word_to_digit::{
     text2digits, Occurence, Replace, Token,
 };
 
+/// Verification hooks: re-export of the crate-private tokenizer, compiled only with `--cfg text2num_verif`.
+#[cfg(text2num_verif)]
+pub mod verif_hooks {
+    pub use crate::tokenizer::{tokenize, BasicToken, Tokenize, WordSplitter};
+}
+
 /// Get an interpreter for the language represented by the `language_code` ISO code.
 pub fn get_interpreter_for(language_code: &str) -> Option<Language> {
     match language_code {
